@@ -59,6 +59,8 @@ pub struct Scope<'scope, 'env: 'scope> {
     main_task: TaskId,
     // Set by `scope` once the owner has blocked waiting for the scoped threads to finish
     main_task_waiting: AtomicBool,
+    // The tasks spawned in this scope; the owner inherits their clocks when the scope ends
+    scoped_tasks: std::sync::Mutex<Vec<TaskId>>,
     scope: PhantomData<&'scope mut &'scope ()>,
     env: PhantomData<&'env mut &'env ()>,
 }
@@ -116,8 +118,10 @@ impl<'scope> Scope<'scope, '_> {
         // To avoid violating this invariant, we pass `switch_before_exit = false` (below). Instead, we provide our own context switch on exit
         // (above) in the `scope_closure` *before* setting `finished` to be `true`.
         // SAFETY: main task is blocked until all scoped closures complete so all captured references remain valid
+        let handle = unsafe { spawn_named_unchecked(scope_closure, None, None, false, Location::caller()) };
+        self.scoped_tasks.lock().unwrap().push(handle.task_id);
         ScopedJoinHandle {
-            handle: unsafe { spawn_named_unchecked(scope_closure, None, None, false, Location::caller()) },
+            handle,
             finished,
             _marker: PhantomData,
         }
@@ -136,6 +140,7 @@ where
         num_running_threads: AtomicUsize::new(0),
         main_task: ExecutionState::with(|s| s.current().id()),
         main_task_waiting: AtomicBool::new(false),
+        scoped_tasks: std::sync::Mutex::new(Vec::new()),
         env: PhantomData,
         scope: PhantomData,
     };
@@ -148,6 +153,15 @@ where
         ExecutionState::with(|s| s.current_mut().block(false));
         thread::switch();
     }
+
+    // Leaving the scope joins every scoped thread: the owner inherits their clocks, as it would by
+    // calling `join` on each handle.
+    ExecutionState::with(|state| {
+        for task_id in scope.scoped_tasks.lock().unwrap().iter() {
+            let clock = state.get_clock(*task_id).clone();
+            state.update_clock(&clock);
+        }
+    });
 
     ret
 }
